@@ -49,4 +49,12 @@ ModelVerdict(toks) ==
     ELSE IF ~p.ok THEN [v |-> (IF p.err = "ParseError" THEN "parse-error-on-shared-syntax"
                                ELSE "parser-raised-other-than-ParseError"), env |-> 0]
     ELSE JudgeTree(p.e, RefValues(toks))
+\* the transcription with every named deviation repaired, against the reference grammar: what
+\* remains here is an UNNAMED deviation of the parser (or of its transcription)
+RepairedVerdict(toks) ==
+    LET r == PyParse(toks) p == ParseRepaired(toks) IN
+    IF ~r.ok THEN [v |-> "OK", env |-> 0]
+    ELSE IF ~p.ok THEN [v |-> (IF p.err = "ParseError" THEN "parse-error-on-shared-syntax"
+                               ELSE "parser-raised-other-than-ParseError"), env |-> 0]
+    ELSE JudgeTree(p.e, RefValues(toks))
 =============================================================================
